@@ -35,10 +35,14 @@ def std_alphabet(world, h, redo_targets=None, touch=True, rm_targets=True, dovar
         for t in world.targets:
             ops.append(["rm", t])
     if dovar:
+        from .worlds import DOFILES_ABSENT
         for df, vs in world.rules.items():
             if len(vs) > 1:
                 for k in range(len(vs)):
                     ops.append(["dovar", df, k])
+        for df in DOFILES_ABSENT.get(world.name, []):
+            ops.append(["dovar", df, 0])     # create a higher-priority script
+            ops.append(["dorm", df])         # remove it again
     return ops
 
 
